@@ -1,6 +1,7 @@
 import DuneVerif.Model.C17
 import DuneVerif.Gen.C17RT
 import DuneVerif.Gen.C17Vec
+import DuneVerif.Gen.C17EqVec
 import DuneVerif.Common.Proto
 /-! line-protocol driver for C17 (see harness/cxx_c17.cc for the op lines)
 
@@ -11,6 +12,10 @@ import DuneVerif.Common.Proto
                                                   stored in an I variable as the type does, see roundM / truncM)
   fcmp / fcmpv / fround / ftrunc                  the same with T = f32|f64|f80 on ARBITRARY finite values of the format,
                                                   evaluated in the rounding arithmetic `FP f`; eps may be `def` (argument omitted)
+  fvround / fvtrunc <T> <I> std|fv <style> <rstyle> [v,..] <eps|def>
+                                                  round / trunc of a std::vector / FieldVector (round four): the component loops
+                                                  regenerated from float_cmp.cc (Gen/C17Vec.lean) around roundM / truncM in `FP f`
+  static | static2                                integral_constant overloads, documented default styles
   laws  …                                         law-only run on arbitrary bit patterns: the model is silent (`n/a`)
   mf    <style> <a> <b> <eps|def>                 8-bit minifloat codes 0..255, operations round
   mfr   <style> <rstyle> <val> <eps|def>          round/trunc in the minifloat format (target type int)
@@ -219,9 +224,9 @@ def handle (line : String) : String :=
       match parseFPList? f a, parseFPList? f b, parseEpsFP? f t s e with
       | some a, some b, some e =>
         match kind with
-        | "std" => six (eqVec s a b e) (neVec s a b e) (ltVec s a b e) (gtVec s a b e) (leVec s a b e) (geVec s a b e)
+        | "std" => six (GenEqVec.eq_std_vec eqS s a b e) (neVec s a b e) (ltVec s a b e) (gtVec s a b e) (leVec s a b e) (geVec s a b e)
         | "fv" => if a.length != b.length || a.length == 0 || a.length > 8 || a.length == 7 then "bad-op" else
-                  s!"eq={showB (eqFV s a b e)} ne={showB (neFV s a b e)}"
+                  s!"eq={showB (GenEqVec.eq_fvec eqS s a b e)} ne={showB (neFV s a b e)}"
         | _ => "bad-op"
       | _, _, _ => "bad-op"
     | _, _ => "bad-op"
@@ -231,9 +236,9 @@ def handle (line : String) : String :=
       if !(a.all (okVal ft) && b.all (okVal ft) && okEps ft e) then "skip" else
       let a := a.map Dy.toRat; let b := b.map Dy.toRat; let e := e.toRat
       match kind with
-      | "std" => six (eqVecRat s a b e) (neVecRat s a b e) (ltVecRat s a b e) (gtVecRat s a b e) (leVecRat s a b e) (geVecRat s a b e)
+      | "std" => six (GenEqVec.eq_std_vec eqS s a b e) (neVecRat s a b e) (ltVecRat s a b e) (gtVecRat s a b e) (leVecRat s a b e) (geVecRat s a b e)
       | "fv" => if a.length != b.length || a.length == 0 || a.length > 4 then "bad-op" else
-                s!"eq={showB (eqFVRat s a b e)} ne={showB (neFVRat s a b e)}"
+                s!"eq={showB (GenEqVec.eq_fvec eqS s a b e)} ne={showB (neFVRat s a b e)}"
       | _ => "bad-op"
     | _, _, _, _, _ => "bad-op"
   | ["mfri", fmt, it, st, rs, v, e] =>
@@ -329,6 +334,8 @@ def handle (line : String) : String :=
     | _, _ => "bad-op"
   | ["static"] =>
     s!"{showOpt (binomial int32 7 7)} {showOpt (binomial int32 (-1) (-1))} {showOpt (factorial uint32 5)} {showOpt (factorial uint64 20)} {showOpt (binomial uint32 6 2)} {showOpt (binomial uint64 40 20)} {showOpt (binomial uint32 5 9)} relativeWeak towardZero relativeWeak towardZero"
+  | ["static2"] =>
+    s!"{showOpt (binomial int32 0 0)} {showOpt (binomial int32 1 1)} {showOpt (binomial int64 0 0)} {showOpt (binomial uint32 0 0)} {showOpt (binomial int64 (-5) (-5))} {showOpt (binomial uint32 3 0)} {showOpt (binomial uint32 0 3)} {showOpt (factorial uint32 0)} {showOpt (factorial uint32 1)} {showOpt (factorial uint64 1)} {showOpt (binomial uint64 1 1)}"
   | ["mfr", st, rs, v, e] =>
     match parseStyle? st, parseRStyle? rs, v.toNat? with
     | some s, some r, some v =>
